@@ -292,6 +292,95 @@ PROPS["C08"] = {
 }
 
 
+# ---------------------------------------------------------------------------------------------------------------
+# C03: every workload is a panic workload. The harvest leg runs the other monitors (chk build: overflow checks and
+# debug assertions on) at reduced scale and turns every panic / internal-assertion error their call wrappers
+# recorded into a C03 violation keyed by panic location.
+
+HARVEST_QUICK = ["C01", "C04", "C05", "C06", "C07", "C08", "C09", "C10", "C11", "C12", "C13", "C14", "C15", "C17", "C18"]
+HARVEST_THOROUGH = HARVEST_QUICK + ["C16"]
+
+
+def harvest_leg(ctx):
+    import json, os, subprocess
+    binary = ctx["cargo_build"]("chk")
+    props = HARVEST_THOROUGH if ctx["tier"] == "thorough" else HARVEST_QUICK
+    scale = "1.0" if ctx["tier"] == "thorough" else "0.2"
+    n = ctx["ncpu"]
+    reports, problems = [], []
+    for pre in (export_zones, export_far_zones):
+        pre(ctx)
+    for p in props:
+        procs = []
+        for i in range(n):
+            out = os.path.join(ctx["outdir"], f"C03.harvest.{p}.{i}.json")
+            if os.path.exists(out):
+                os.remove(out)
+            cmd = [binary, "run", p, "--tier", "quick", "--seed", str(ctx["seed"]), "--shard", f"{i}/{n}", "--out", out, "--build", "chk", "--scale", scale]
+            procs.append((i, out, subprocess.Popen(cmd, cwd=ctx["verif"], stdout=subprocess.DEVNULL, stderr=subprocess.DEVNULL)))
+        for i, out, pr in procs:
+            try:
+                pr.wait(timeout=3600)
+            except subprocess.TimeoutExpired:
+                pr.kill()
+                problems.append({"shard": i, "build": f"harvest:{p}", "kind": "watchdog"})
+                continue
+            if pr.returncode != 0 or not os.path.exists(out):
+                problems.append({"shard": i, "build": f"harvest:{p}", "kind": f"exit {pr.returncode}"})
+                continue
+            r = json.load(open(out))
+            viol = []
+            for b in r.get("broken", []):
+                viol.append({"sig": f"C03/C03.broken/call/{b['key']}", "count": b["count"],
+                             "witnesses": [{"clause": "C03.broken", "op": "call", "shape": b["key"],
+                                            "case": {"found_by": f"workload of {p}", "via_property": p, "via_scale": scale, "occurrences": b["count"]},
+                                            "got": b["message"], "expected": "a value or a Type/Range/Syntax error", "case_idx": b["case_idx"]}]})
+            reports.append({"evaluations": r["evaluations"], "distinct_nontrivial": 0, "counters": {f"harvest/{p}/cases": r.get("cases", 0)},
+                            "samples": [], "violations": viol, "shard": i, "nshards": n, "seed": ctx["seed"], "tier": "quick",
+                            "build": f"harvest:{p}", "harness_errors": []})
+    return reports, problems
+
+
+def harvest_replay(ctx, r):
+    import os, subprocess, json
+    w = r["witness"]
+    rp = r["replay"]
+    p = w["case"].get("via_property")
+    binary = ctx["cargo_build"]("chk")
+    out = os.path.join(ctx["build"], "out", "replay.json")
+    cmd = [binary, "run", p, "--tier", "quick", "--seed", str(rp["seed"]), "--shard", f"{rp['shard']}/{rp['nshards']}", "--only", str(rp["case_idx"]),
+           "--build", "chk", "--scale", w["case"].get("via_scale", "1.0"), "--out", out]
+    ctx["log"](" ".join(cmd))
+    subprocess.run(cmd, cwd=ctx["verif"], stdout=subprocess.DEVNULL, stderr=subprocess.DEVNULL)
+    rep = json.load(open(out))
+    hits = [b for b in rep.get("broken", []) if b["key"] == w["shape"]]
+    print(f"replayed case {rp['case_idx']} of the {p} workload: {len(hits)} matching broken call(s)")
+    for b in hits:
+        print(f"VIOLATION property=C03 replay={r.get('path', '')}\n  signature: {r['sig']}\n  message: {b['message']}")
+    return 1 if hits else 0
+
+
+PROPS["C03"] = {
+    "builds": ["chk"],
+    "legs": [harvest_leg],
+    "replay": harvest_replay,
+    "rule": ("(a) api storm, chk build (overflow checks + debug assertions): seeded scenarios over strings (arbitrary mixes of date/time/annotation/duration fragments, NUL, non-ASCII, "
+             "U+2212, very long and repeated inputs -> every from_str / from_utf8 of the crate incl. option enums), PlainDate / PlainDateTime / PlainTime / PlainYearMonth / "
+             "PlainMonthDay / Instant / Duration / ZonedDateTime with hostile but finite fields (i32 and u8/u16 extremes, range limits +-1, twelve calendars), every public method "
+             "with random (also invalid) unit / mode / increment / precision / overflow / disambiguation options, durations from the C09 hostile generator, relativeTo none / plain / "
+             "zoned, zones served by the harness's TableProvider incl. a table of 5000 transitions one second apart; (b) harvest: the workloads of every other monitor (quick: scale "
+             "0.2; thorough: full, plus C16) re-run in the chk build; every panic and every ErrorKind::Assert recorded by the call wrappers is a violation keyed by panic location + "
+             "message with digits masked. Counted per scenario; a broken call is replayable through (workload, seed, shard, case index)"),
+    "assumptions": ["a panic inside a dependency reached through the public API counts (the property is about the public operation); such locations are listed as known findings when the repository cannot repair them",
+                    "unbounded loops are caught only by the per-run watchdog (reported inconclusive, never as a violation)"],
+    "manifest": {
+        "technique": "runtime monitoring: catch_unwind call wrappers over an API storm and over every other monitor's workload in an overflow-checking, debug-asserting build; broken calls keyed by panic location",
+        "text": "Every call the harness makes into the crate runs under catch_unwind in a build with integer-overflow checks and debug assertions; panics and internal-assertion errors are recorded with their source location. C03 drives a dedicated storm (arbitrary strings into every parser, hostile finite arguments and random option combinations into every public method, pathological provider tables) and additionally harvests the records of all other monitors' workloads. A clean run means none of the calls made broke; calls not made are not covered.",
+        "note": "The FFI layer's calls are exercised by C19's workload; memory-safety tooling (Miri) is a separate leg of C19/C20 where unsafe code is reached.",
+    },
+}
+
+
 NOT_CLAIMED = {}
 
 
